@@ -22,6 +22,9 @@ EXPLANATION = (
     'of the picker: a path that yields a non-final fragment leaves the source queued exactly once, every other path '
     'removes exactly one element. (d) The receiving side is C03.c. Not decided: behaviour for all queue contents and '
     'drain timings beyond these facts.')
+EXPLANATION_ADDED = ('(f) the queue class gives the picker what it assumes (peek = element the next get returns, only when not empty; any_other = some other queued element satisfies the predicate); head insertion puts the frame in only after the queue was seen empty and re-queues every drained element; the send helpers put exactly one frame with the stream id given; only the picker dequeues (shared C01.c).')
+EXPLANATION = EXPLANATION.replace(' Not decided', ' ' + EXPLANATION_ADDED + ' Not decided', 1) \
+    if ' Not decided' in EXPLANATION else EXPLANATION + ' ' + EXPLANATION_ADDED
 ASSUMPTIONS = COMMON_ASSUMPTIONS
 
 PICKER = 'rsocket.rsocket_base:RSocketBase._get_next_frame_to_send'
